@@ -388,17 +388,22 @@ ITypeOK == /\ TypeOK /\ reg \in Regions
 
 -----------------------------------------------------------------------------
 (* emission (spec -> code): expected values of every function for the field and the region *)
+\* The required values do not depend on WHICH coordinate-system object of a kind the field is given in, nor on what was
+\* computed before in the same process: every case on a shell / ball / half ball is to be replayed along this history of
+\* system objects (two existing ones, a newly created one, the first again); Expected has no such argument.
+SystemHistory == <<"A", "B", "new", "A">>
+
 INativeEmit ==
   (terms = <<>> /\ reg.k \in {"shell", "ball", "hball"}) =>
      \A n \in NativeFields(reg.k) :
-        PrintT(ToJson([native |-> n, reg |-> reg,
+        PrintT(ToJson([native |-> n, reg |-> reg, history |-> SystemHistory,
                        cart |-> <<TermSet(NativeField(n)[1]), TermSet(NativeField(n)[2]), TermSet(NativeField(n)[3])>>,
                        flux3 |-> Expected("flux3", NativeField(n), reg)]))
 
 IEmit == Emitted =>
   PrintT(ToJson(
     IF reg.k \notin PlanarKinds
-    THEN [terms |-> terms, reg |-> reg,
+    THEN [terms |-> terms, reg |-> reg, history |-> IF reg.k \in {"shell", "ball", "hball"} THEN SystemHistory ELSE <<>>,
           flux3 |-> Expected("flux3", fld, reg), flux3rev |-> Expected("flux3", fld, Rev(reg))]
     ELSE [terms |-> terms, reg |-> reg, planar |-> IF Planar(fld, reg) THEN 1 ELSE 0,
           circ |-> Expected("circ", fld, reg), circrev |-> Expected("circ", fld, Rev(reg)),
